@@ -372,6 +372,7 @@ KFIELDS = ['c_tb', 'c_sync', 'c_rands', 'c_lns', 'c_draws', 'o_obs', 'o_time', '
 
 class H(Harness):
     ID = 'C02'
+    ANCHOR_FILES = ['epydemic/stochasticdynamics.py', 'epydemic/process.py', 'epydemic/networkdynamics.py', 'epydemic/bbt.py', 'epydemic/drawset.py', 'epydemic/__init__.py', 'epydemic/sir_model_variable_infection.py']
     TIE_IMPORT = 'From EpyV Require Import Model.Kernel Model.Loci Model.Compart Tie.Kernel Tie.Compart Tie.C02.\nOpen Scope Q_scope.'
     CHECK_FN = 'EpyV.Tie.C02.check_case'
     VO_TARGETS = ['Properties/C02.vo', 'Tie/C02.vo']
